@@ -80,7 +80,17 @@ def run_case(acc, seed, idx):
                             child_prs})
     w = world
     try:
-        chain = w.layout['chain']
+        chain = list(w.layout['chain'])
+        if rng.random() < 0.3:
+            # a development branch that was just opened from the previous
+            # one: two consecutive destinations on the SAME commit, so the
+            # later integration branch is fast-forwarded onto the robot's
+            # merge commit of the earlier one
+            major = int(chain[-1].split('/')[1].split('.')[0])
+            new = 'development/%d.0' % (major + 1)
+            if w.do('create_branch_by_hand', branch=new, base=chain[-1]):
+                chain.append(new)
+                acc.count('c15_cases_with_two_destinations_on_one_commit')
         nprs = rng.choice([1, 2, 2, 3])
         prs = []
         for i in range(nprs):
